@@ -2,7 +2,8 @@
 // metrics wrapper over memkv and Badger). Every step's result class, conflict payload and iterator
 // output, and the final raw contents, are written as Coq cases: Model/Adapters.v must reproduce them
 // exactly (c11_check) and they must agree with the engine contract Model/Store.v under the C11
-// projection (c11_oracle).
+// projection (c11_oracle).  The decor-* configurations run metrics.NewKvStorage with a recording client: every
+// step's emissions are part of the case (KWrapMetrics, Model/C11Wrap.v).
 package main
 
 import (
@@ -13,8 +14,11 @@ import (
 	"io"
 	"os"
 	"sort"
+	"strings"
+	"sync"
 	"time"
 
+	"github.com/kubewharf/kubebrain/pkg/metrics"
 	"github.com/kubewharf/kubebrain/pkg/storage"
 	imetrics "github.com/kubewharf/kubebrain/pkg/storage/metrics"
 
@@ -371,7 +375,123 @@ var coqEng = map[string]string{lib.EngMem: "EMem", lib.EngBadger: "EBadger", lib
 // the metrics wrapper over the TiKV mock (lib.NewEngine knows the wrapper over memkv and Badger only)
 const engWrapTiKV = "wrap-tikv"
 
+// the metrics decorator with a recording client (case kind KWrapMetrics, Model/C11Wrap.v): the emissions of every
+// step are part of the observation
+const (
+	engDecorMem    = "decor-memkv"
+	engDecorBadger = "decor-badger"
+	engDecorTiKV   = "decor-tikv"
+)
+
+var decorInner = map[string]string{engDecorMem: lib.EngMem, engDecorBadger: lib.EngBadger, engDecorTiKV: lib.EngTiKV}
+
+type recorder struct {
+	mu  sync.Mutex
+	ems []string // Coq terms of type emission
+	raw []string
+}
+
+func tagOf(tags []metrics.T, name string) (string, bool) {
+	for _, t := range tags {
+		if t.Name == name {
+			return t.Value, true
+		}
+	}
+	return "", false
+}
+
+var coqState = map[string]string{"success": "TSuccess", "error": "TError", "key_not_found": "TNotFound", "cas_failed": "TCasFailed"}
+var coqWop = map[string]string{"get": "WGet", "del": "WDel", "cmp_and_del": "WCmpDel"}
+
+func asInt(v interface{}) (uint64, bool) {
+	switch x := v.(type) {
+	case int:
+		if x >= 0 {
+			return uint64(x), true
+		}
+	case int64:
+		if x >= 0 {
+			return uint64(x), true
+		}
+	case uint64:
+		return x, true
+	}
+	return 0, false
+}
+
+// render maps one emission to the model's vocabulary; whatever does not fit exactly (name, kind, tag set, value) is EOther
+func render(kind, name string, v interface{}, tags []metrics.T) string {
+	state, hasState := tagOf(tags, "state")
+	st, stOK := coqState[state]
+	ltdS, hasLtd := tagOf(tags, "limited")
+	ltd := lib.Bool(ltdS == "true")
+	ltdOK := hasLtd && (ltdS == "true" || ltdS == "false") && len(tags) == 1
+	n, isInt := asInt(v)
+	switch {
+	case kind == "histogram" && name == "storage.op" && len(tags) == 2 && hasState && stOK:
+		if o, ok := tagOf(tags, "op"); ok && coqWop[o] != "" {
+			return lib.App("EOp", coqWop[o], st)
+		}
+	case kind == "counter" && name == "storage.iter.start" && len(tags) == 1 && stOK && isInt && n == 1:
+		return lib.App("EIterStart", st)
+	case kind == "counter" && name == "storage.iter.start.success" && ltdOK && isInt && n == 1:
+		return lib.App("EIterOpened", ltd)
+	case kind == "counter" && name == "storage.iter.fetch.error" && ltdOK && isInt && n == 1:
+		return lib.App("EIterFetchErr", ltd)
+	case kind == "counter" && name == "storage.iter.fetch.success" && ltdOK && isInt:
+		return lib.App("EIterFetched", lib.N(n), ltd)
+	case kind == "histogram" && name == "storage.iter.duration.avg" && ltdOK:
+		return lib.App("EIterAvg", ltd)
+	case kind == "histogram" && name == "storage.iter.duration.sum" && ltdOK:
+		return lib.App("EIterSum", ltd)
+	case kind == "histogram" && (name == "storage.batch.count" || name == "storage.batch.duration") && len(tags) == 2 && stOK:
+		if o, ok := tagOf(tags, "op"); ok && o == "write_batch" {
+			if name == "storage.batch.duration" {
+				return lib.App("EBatchDur", st)
+			}
+			if isInt {
+				return lib.App("EBatchCount", lib.N(n), st)
+			}
+		}
+	}
+	return "EOther"
+}
+
+func (r *recorder) hook(kind, name string, v interface{}, tags []metrics.T) {
+	r.mu.Lock()
+	defer r.mu.Unlock()
+	r.ems = append(r.ems, render(kind, name, v, tags))
+	ts := make([]string, len(tags))
+	for i, t := range tags {
+		ts[i] = t.Name + "=" + t.Value
+	}
+	val := ""
+	if n, ok := asInt(v); ok {
+		val = fmt.Sprintf("=%d", n)
+	}
+	r.raw = append(r.raw, kind+" "+name+val+"{"+strings.Join(ts, ",")+"}")
+}
+
+func (r *recorder) take() ([]string, []string) {
+	r.mu.Lock()
+	defer r.mu.Unlock()
+	e, w := r.ems, r.raw
+	r.ems, r.raw = nil, nil
+	return e, w
+}
+
+var recorders = map[string]*recorder{}
+
 func newEngine(eng, scratch string) (storage.KvStorage, func(), error) {
+	if inner, ok := decorInner[eng]; ok {
+		kv, cl, err := lib.NewEngine(inner, scratch)
+		if err != nil {
+			return nil, nil, err
+		}
+		rec := &recorder{}
+		recorders[eng] = rec
+		return imetrics.NewKvStorage(kv, &lib.NopMetrics{HookV: rec.hook}), cl, nil
+	}
 	if eng == engWrapTiKV {
 		kv, cl, err := lib.NewEngine(lib.EngTiKV, scratch)
 		if err != nil {
@@ -888,8 +1008,11 @@ func main() {
 	case "search":
 		perEngine = 500
 	}
-	w := lib.NewWriter(args, "C11", "c11", "From KB Require Import Model.C11Cases.", "c11_case", "c11_check", "c11_oracle", 400)
-	engines := []string{lib.EngMem, lib.EngBadger, lib.EngTiKV, lib.EngWrapMem, lib.EngWrapBadger, engWrapTiKV}
+	w := lib.NewWriter(args, "C11", "c11", "From KB Require Import Model.C11Wrap.", "c11x_case", "c11x_check", "c11x_oracle", 400)
+	w.InfoFn = "c11x_emissions_check" // C11 says nothing about metrics: emission disagreements are reported, not alarms
+	engines := []string{lib.EngMem, lib.EngBadger, lib.EngTiKV, lib.EngWrapMem, lib.EngWrapBadger, engWrapTiKV,
+		engDecorMem, engDecorBadger, engDecorTiKV}
+	emissionKinds := map[string]int{}
 	opKinds := map[string]int{}
 	invalid := map[string]int{}
 
@@ -927,7 +1050,18 @@ func main() {
 				if (o.Kind == "delcur" && r.held == nil) || (o.Kind == "batch" && r.held == nil && hasDelCur(o)) {
 					continue
 				}
+				rec := recorders[eng]
+				if rec != nil {
+					rec.take() // emissions of clear / Dump / the previous step's bookkeeping are not part of a step
+				}
 				res := r.exec(o)
+				var ems, rawEms []string
+				if rec != nil {
+					ems, rawEms = rec.take()
+					for _, e := range ems {
+						emissionKinds[strings.TrimPrefix(strings.SplitN(e, " ", 2)[0], "(")]++
+					}
+				}
 				if g != nil {
 					g.apply(o, res)
 					g.held = r.held != nil
@@ -935,8 +1069,15 @@ func main() {
 				opKinds[o.Kind]++
 				outcomes[o.Kind+":"+res.Class] = true
 				seqOps = append(seqOps, o)
-				steps = append(steps, lib.Pair(coqOp(o), coqObs(o, res)))
-				jsteps = append(jsteps, jsonStep(o, res))
+				if rec != nil {
+					steps = append(steps, lib.Pair(coqOp(o), lib.Pair(coqObs(o, res), lib.List(ems))))
+					js := jsonStep(o, res)
+					js["emissions"] = rawEms
+					jsteps = append(jsteps, js)
+				} else {
+					steps = append(steps, lib.Pair(coqOp(o), coqObs(o, res)))
+					jsteps = append(jsteps, jsonStep(o, res))
+				}
 				if res.Class == "RPanic" {
 					break
 				}
@@ -962,8 +1103,12 @@ func main() {
 			if why := uncleanReason(eng, seqOps, classes["RPanic"]); why != "" {
 				invalid[why]++ // mirrors c11_cleanb: outside the side condition of C11_oracle_sound (a finding's precondition)
 			}
+			coqCase := lib.App("CX", lib.App("mk_c11", coqEng[eng], lib.List(steps), coqOut(fin)))
+			if inner, ok := decorInner[eng]; ok {
+				coqCase = lib.App("KWrapMetrics", coqEng[inner], lib.List(steps), coqOut(fin))
+			}
 			w.Add(lib.Case{Kind: kind + "/" + eng,
-				Coq:      lib.App("mk_c11", coqEng[eng], lib.List(steps), coqOut(fin)),
+				Coq:      coqCase,
 				JSON:     map[string]interface{}{"engine": eng, "name": kind, "steps": jsteps, "final": jsonOut(fin)},
 				Trivial:  len(classes) < 2,
 				Outcomes: ocs})
@@ -972,8 +1117,9 @@ func main() {
 			runSeq("fixed:"+f.name, f.ops, nil, 0)
 		}
 		// all-or-nothing for a batch that may be too big for one engine transaction (~12 MB of keys)
+		_, decorated := decorInner[eng]
 		for _, failing := range []bool{true, false} {
-			if !failing && eng != lib.EngBadger {
+			if decorated || (!failing && eng != lib.EngBadger) {
 				continue
 			}
 			const bigN, bigLen = 3000, 4096
@@ -984,7 +1130,7 @@ func main() {
 				continue
 			}
 			w.Add(lib.Case{Kind: "fixed:big-batch/" + eng,
-				Coq:      lib.App("KBigBatch", coqEng[eng], lib.N(bigN), lib.N(bigLen), lib.Bool(failing), cl, lib.N(uint64(vis))),
+				Coq:      lib.App("CX", lib.App("KBigBatch", coqEng[eng], lib.N(bigN), lib.N(bigLen), lib.Bool(failing), cl, lib.N(uint64(vis)))),
 				JSON:     map[string]interface{}{"engine": eng, "name": "big-batch", "puts": bigN, "keylen": bigLen, "failing_cas": failing, "class": cl, "visible": vis, "err": es},
 				Outcomes: []string{"bigbatch:" + cl}})
 		}
@@ -1015,25 +1161,29 @@ func main() {
 			runSeq("fixed:snapshot", ops, nil, 0)
 		}
 		// two interleaved batches: the guard of the first is invalidated by the second before the first commits
-		for variant := 0; variant < 3; variant++ {
+		for variant := 0; variant < 3 && !decorated; variant++ {
 			_ = clear(kv)
 			b2first, c1, other, g2, es := interleave(kv, variant)
 			w.Add(lib.Case{Kind: "fixed:interleaved-batches/" + eng,
-				Coq: lib.App("KInterleave", coqEng[eng], lib.N(uint64(variant)), lib.Bool(b2first), c1, lib.Bool(other), lib.Bool(g2)),
+				Coq: lib.App("CX", lib.App("KInterleave", coqEng[eng], lib.N(uint64(variant)), lib.Bool(b2first), c1, lib.Bool(other), lib.Bool(g2))),
 				JSON: map[string]interface{}{"engine": eng, "name": "interleaved-batches", "guard": []string{"CAS(guard,v1,v1)", "CAS(guard,v1b,v1)", "PutIfNotExist(guard2)"}[variant],
 					"batch2_committed_before_batch1_commit": b2first, "batch1_class": c1, "other_present": other, "guard_holds_batch2_value": g2, "err": es},
 				Outcomes: []string{"interleave:" + c1}})
 			_ = clear(kv)
 		}
 		er := rnd.Fork()
-		for s := 0; s < perEngine; s++ {
+		nSeq := perEngine
+		if decorated {
+			nSeq = perEngine / 2
+		}
+		for s := 0; s < nSeq; s++ {
 			g := &gen{r: er, shadow: map[string][]byte{}, empty: s%25 == 24}
 			n := 6 + er.Intn(20)
 			runSeq("random", nil, g, n)
-			if eng == lib.EngMem || eng == lib.EngWrapMem {
+			if eng == lib.EngMem || eng == lib.EngWrapMem || eng == engDecorMem {
 				// memkv is cheap: a fresh engine for every sequence
 				closer()
-				kv, closer, _ = lib.NewEngine(eng, args.Scratch)
+				kv, closer, _ = newEngine(eng, args.Scratch)
 			}
 		}
 		closer()
@@ -1052,12 +1202,13 @@ func main() {
 			want, _, _, _, _ := classify(in.err)
 			obsd, intact, es := wrapFault(args.Scratch, kind, in.err)
 			w.Add(lib.Case{Kind: "fixed:wrapper-fault/" + kname,
-				Coq:      lib.App("KWrapFault", lib.N(uint64(kind)), want, obsd, lib.Bool(intact)),
+				Coq:      lib.App("CX", lib.App("KWrapFault", lib.N(uint64(kind)), want, obsd, lib.Bool(intact))),
 				JSON:     map[string]interface{}{"name": "wrapper-fault", "call": kname, "injected": in.name, "injected_class": want, "observed_class": obsd, "record_intact": intact, "err": es},
 				Outcomes: []string{"wrapfault:" + obsd}})
 		}
 	}
 	w.Stats.Extra["op_kinds"] = opKinds
+	w.Stats.Extra["decorator_emissions"] = emissionKinds
 	// cases outside c11_cleanb (the Coq side proves C11_oracle_sound_checked for all the others), by reason
 	w.Stats.Extra["invalid_cases"] = invalid
 	if err := w.Finish("one case = one operation sequence (length <= 25) on one engine, starting from the emptied engine; keys from a pool of 9 (prefix-related, 0x00, 0xff), bounds from keys plus 10 in-between/outside values; non-trivial = at least two different result classes occurred in the sequence; distinct = SHA-256 of the Coq case"); err != nil {
@@ -1080,12 +1231,12 @@ func uncleanReason(eng string, ops []op, panicked bool) string {
 		for _, x := range o.Batch {
 			switch x.Kind {
 			case "putnx", "put", "cas":
-				if (eng == lib.EngTiKV || eng == engWrapTiKV) && len(x.V) == 0 {
+				if (eng == lib.EngTiKV || eng == engWrapTiKV || eng == engDecorTiKV) && len(x.V) == 0 {
 					return "tikv: empty value written (precondition of finding C11-F1)"
 				}
 				written = true
 			case "delcur":
-				if written && (eng == lib.EngBadger || eng == lib.EngWrapBadger) {
+				if written && (eng == lib.EngBadger || eng == lib.EngWrapBadger || eng == engDecorBadger) {
 					return "badger: DelCurrent after a write in the same batch (precondition of finding C11-F2)"
 				}
 			}
